@@ -60,12 +60,42 @@ Theorem C15_setz_priority : forall cb dz e1 e2 ip,
 Proof. exact set_z_priority. Qed.
 Print Assumptions C15_setz_priority.
 
+(* ClipperBase::DoSplitOp (repair of a residual self-intersection of an output ring; reached only by inputs that are
+   NOT in general position, see checks/C15.py): the callback is invoked once on the local ip before ip is used, so
+   every vertex of the kept ring and of the split-off ring is a vertex of the ring before the call or THE point the
+   callback returned; the two copies of that point (one per ring) are identical, z included; and a callback that
+   leaves x,y alone does not change the x,y of the rings.  The geometric decisions are parameters of the model. *)
+Theorem C15_split_vertices_accounted : forall cb prev split snext nn rest g kept newr,
+  do_split_op_z cb (prev :: split :: snext :: nn :: rest) g = Some (kept, newr) ->
+  forall v, In v (match kept with Some k => k | None => [] end ++ match newr with Some n => n | None => [] end) ->
+  In v (prev :: split :: snext :: nn :: rest) \/ v = split_ip cb prev split snext nn g.
+Proof. exact split_vertices_accounted. Qed.
+Print Assumptions C15_split_vertices_accounted.
+
+Theorem C15_split_same_point_both_rings : forall cb prev split snext nn rest g k n,
+  do_split_op_z cb (prev :: split :: snext :: nn :: rest) g = Some (Some k, Some n) ->
+  hd_error n = Some (split_ip cb prev split snext nn g) /\
+  (length k = S (length (nn :: rest)) \/ nth_error k 1 = Some (split_ip cb prev split snext nn g)).
+Proof. exact split_same_point_both_rings. Qed.
+Print Assumptions C15_split_same_point_both_rings.
+
+Theorem C15_split_erase : forall cb ring g,
+  (forall f, cb = Some f -> forall a b c d p, erase (f a b c d p) = erase p) ->
+  match do_split_op_z cb ring g, do_split_op_z None ring g with
+  | Some (k, n), Some (k', n') => option_map (map erase) k = option_map (map erase) k' /\ option_map (map erase) n = option_map (map erase) n'
+  | None, None => True
+  | _, _ => False
+  end.
+Proof. exact split_erase. Qed.
+Print Assumptions C15_split_erase.
+
 (* partial: the engine, the offsetter and RectClip are not modelled with z; their x,y equality between the two
    builds and the completeness of SetZ call sites are validated by the two-build differential run and the
    Z-accounting monitor of checks/C15.py, not proved. *)
 Definition C15_erasure_partial :=
   (C15_erase_commutes_trim_collinear, C15_erase_commutes_strip_duplicates, C15_erase_commutes_minkowski,
-   C15_erase_commutes_translate, C15_setz_priority).
+   C15_erase_commutes_translate, C15_setz_priority, C15_split_vertices_accounted, C15_split_same_point_both_rings,
+   C15_split_erase).
 
 Example C15_nonvacuous :
   let p := [mk3 0 0 5; mk3 5 0 6; mk3 10 0 7; mk3 10 10 8; mk3 0 10 9] in
